@@ -351,7 +351,12 @@ func (fr *Frame) execBlock(b *ssa.BasicBlock, skip int, reach T, st *State) {
 			fr.outEdge(b, b.Succs[0], reach, st)
 			return
 		case *ssa.MapUpdate:
-			fr.mapUpdate(x, reach, st)
+			{
+				bind := map[string]Val{"arg0": {t: fr.val(x.Map), typ: x.Map.Type()}, "arg1": {t: fr.val(x.Key), typ: x.Key.Type()}, "arg2": {t: fr.val(x.Value), typ: x.Value.Type()}}
+				fr.ghostAt("mapupdate", fr.mupOrd[x], "mapupdate", "before", reach, st, bind)
+				fr.mapUpdate(x, reach, st)
+				fr.ghostAt("mapupdate", fr.mupOrd[x], "mapupdate", "after", reach, st, bind)
+			}
 		case *ssa.Panic:
 			fr.safety("panic", x, reach, tFalse, "explicit panic is unreachable")
 			return
